@@ -5,6 +5,7 @@ import (
 	"fmt"
 	"math/rand"
 	"sync"
+	"sync/atomic"
 	"time"
 
 	"github.com/ansible/receptor/pkg/netceptor"
@@ -66,6 +67,20 @@ func cmdAdmit(args []string) {
 	wg.Wait()
 	var all []verifhook.Record
 	distinct := map[string]bool{}
+	// many sessions announcing ONE id complete their handshake at the same instant, on a node with many connections
+	{
+		hooks, viol, inconcl, rounds := runAdmitStorm(col, *seed, *scenarios)
+		if inconcl != "" {
+			res.Inconclusive = append(res.Inconclusive, inconcl)
+		} else {
+			for _, v := range viol {
+				res.violate(v.Sig, v.What, v.Replay)
+			}
+			res.Evaluations += rounds
+			distinct["same-id-storm"] = true
+			all = append(all, hooks...)
+		}
+	}
 	// the peer disappears while the node is between the two requests that end the establishment (needs a gate)
 	for k := 0; k < 8; k++ {
 		hooks, viol, inconcl := runAdmitGateScenario(col, k)
@@ -405,4 +420,106 @@ func runAdmitGateScenario(col *trace.Collector, k int) (hooks []verifhook.Record
 	}
 
 	return nil, viol, ""
+}
+
+// runAdmitStorm: a node that already has many neighbours (the already-connected test scans the whole table)
+// receives, round after round, eight sessions that announce the same id and are released at the same instant
+// by a spinning barrier. At most one of them may be admitted; the node's events go to NodeTrace as well.
+func runAdmitStorm(col *trace.Collector, seed int64, scale int) (hooks []verifhook.Record, viol []Violation, inconcl string, rounds int) {
+	n, err := e1.NewNode("n1", e1.Opts{})
+	if err != nil {
+		return nil, nil, err.Error(), 0
+	}
+	defer n.Stop()
+	vn := n.N.VerifName()
+	h0 := col.Len()
+	// only the admission events of this node go to NodeTrace: with 200 neighbours every adjacency event carries a
+	// 200x200 picture and every rebuild would cost TLC a 200-node Bellman-Ford
+	keepEv := map[any]bool{"sess_start": true, "recv": true, "reject": true, "conn_add": true, "established": true, "conn_del": true, "sess_end": true}
+	defer func() {
+		for _, r := range col.Since(h0) {
+			if r["n"] == vn && keepEv[r["ev"]] {
+				hooks = append(hooks, r)
+			}
+		}
+	}()
+	const filler = 200
+	for i := 0; i < filler; i++ {
+		p, err := n.Attach(fmt.Sprintf("f%d", i))
+		if err != nil {
+			return nil, nil, "attach: " + err.Error(), 0
+		}
+		_ = p.SendRoute(peer.RoutingUpdate{NodeID: p.ID, UpdateID: fmt.Sprintf("st-f%d", i), UpdateEpoch: 7, UpdateSequence: 1, Connections: map[string]float64{}, ForwardingNode: p.ID})
+	}
+	deadline := time.Now().Add(60 * time.Second)
+	for len(n.N.VerifSnapshot().Conns) < filler {
+		if time.Now().After(deadline) {
+			return nil, nil, "filler connections were not established", 0
+		}
+		time.Sleep(20 * time.Millisecond)
+	}
+	total := 25
+	if scale > 200 {
+		total = 200
+	}
+	const width = 8
+	for r := 0; r < total; r++ {
+		id := fmt.Sprintf("storm%d", r)
+		var flag int32
+		var ready, done sync.WaitGroup
+		ps := make([]*peer.Peer, width)
+		for k := 0; k < width; k++ {
+			p, err := n.Attach(id)
+			if err != nil {
+				return nil, nil, "attach: " + err.Error(), rounds
+			}
+			ps[k] = p
+			ready.Add(1)
+			done.Add(1)
+			go func(p *peer.Peer, k int) {
+				defer done.Done()
+				ready.Done()
+				for atomic.LoadInt32(&flag) == 0 { // spin: release all senders within nanoseconds of each other
+				}
+				_ = p.SendRoute(peer.RoutingUpdate{NodeID: id, UpdateID: fmt.Sprintf("st-%d-%d", r, k), UpdateEpoch: 7, UpdateSequence: 1, Connections: map[string]float64{}, ForwardingNode: id})
+			}(p, k)
+		}
+		ready.Wait()
+		ev0 := col.Len()
+		atomic.StoreInt32(&flag, 1)
+		done.Wait()
+		for _, p := range ps {
+			if e := nlBarrier(col, vn, p, 120*time.Second); e != "" {
+				return nil, nil, "storm barrier: " + e, rounds
+			}
+		}
+		admitted := 0
+		for _, e := range col.Since(ev0) {
+			if e["n"] == vn && e["ev"] == "conn_add" && e["peer"] == id {
+				admitted++
+			}
+		}
+		rounds++
+		if admitted > 1 {
+			viol = append(viol, Violation{"C11:two-admitted-sessions-one-id", fmt.Sprintf("%d of %d sessions announcing %q at the same instant were admitted (node with %d connections)", admitted, width, id, filler),
+				map[string]any{"scenario": "same-id-storm", "round": r}})
+		}
+		for _, p := range ps {
+			p.Close()
+		}
+		dl := time.Now().Add(20 * time.Second)
+		for {
+			if _, still := n.N.VerifSnapshot().Conns[id]; !still {
+				break
+			}
+			if time.Now().After(dl) {
+				viol = append(viol, Violation{"C11:connection-not-forgotten", fmt.Sprintf("connection %q still listed after all of its sessions were closed", id), map[string]any{"scenario": "same-id-storm", "round": r}})
+
+				break
+			}
+			time.Sleep(5 * time.Millisecond)
+		}
+	}
+
+	return nil, viol, "", rounds
 }
